@@ -17,10 +17,10 @@ Print Assumptions C16_history_refines.
 
 Example C16_history_refines_nonvacuous :
   nulfree [97; 98; 99; 98; 99; 97; 98] /\
-  Forall op_ok [ORem [98; 99; 97; 98]; OLen; OMem [99]; OPrint 1 [PLit [120]; PInt (-42)]; OCStr; OConcatSelf; OLen] /\
+  Forall op_ok [ORem [98; 99; 97; 98]; OLen; OMem [99]; OPrint 1 [PLit [120]; PInt (-42)]; OCStr; OConcatSelf; OLen; OPrint 10 [PSelf]; OLen] /\
   exists b0, c_new [97; 98; 99; 98; 99; 97; 98] = Some b0 /\
-    fst (c_run b0 [ORem [98; 99; 97; 98]; OLen; OMem [99]; OPrint 1 [PLit [120]; PInt (-42)]; OCStr; OConcatSelf; OLen])
-    = [SUnit; SNat 3; SBool true; SNat 5; SChars [97; 120; 45; 52; 50]; SUnit; SNat 10].
+    fst (c_run b0 [ORem [98; 99; 97; 98]; OLen; OMem [99]; OPrint 1 [PLit [120]; PInt (-42)]; OCStr; OConcatSelf; OLen; OPrint 10 [PSelf]; OLen])
+    = [SUnit; SNat 3; SBool true; SNat 5; SChars [97; 120; 45; 52; 50]; SUnit; SNat 10; SNat 20; SNat 20].
 Proof.
   split; [repeat constructor; discriminate|]. split; [repeat constructor; discriminate|].
   exists (map Some [97; 98; 99; 98; 99; 97; 98; 0]). split; vm_compute; reflexivity.
@@ -108,6 +108,25 @@ Print Assumptions C16_cmp_lt.
 Theorem C16_cmp_antisym : forall a b, str_compare b a = CompOpp (str_compare a b).
 Proof. exact str_compare_antisym. Qed.
 Print Assumptions C16_cmp_antisym.
+
+(* print_to in closed form when the target is not among the arguments *)
+Theorem C16_print_to_closed_form : forall ps s pos, Forall (fun p => p <> PSelf) ps ->
+  spec_print s pos ps =
+  (match ps with
+   | [] => s
+   | _ => if pos <=? length s then firstn pos s ++ concat (map render ps) else s
+   end, pos + length (concat (map render ps))).
+Proof. exact spec_print_closed. Qed.
+Print Assumptions C16_print_to_closed_form.
+
+Example C16_print_to_self :      (* print_to(s, 1, "%s-%s", s, s) on "abc": pieces see the string as it is by then *)
+  spec_step [97; 98; 99] (OPrint 1 [PSelf; PLit [45]; PSelf]) = ([97; 97; 98; 99; 45; 97; 97; 98; 99; 45], SNat 10).
+Proof. vm_compute. reflexivity. Qed.
+
+Theorem C16_print_to_self_before_repair_undefined : forall b fa pos r,
+  m_print_to fa false b pos (PSelf :: r) = None.
+Proof. exact format_self_old_shape_undefined. Qed.
+Print Assumptions C16_print_to_self_before_repair_undefined.
 
 (* the String itself as the argument means the same as any argument with its value *)
 Theorem C16_self_argument_by_value : forall s,
